@@ -61,11 +61,27 @@ CONFIG = {
             "open known finding F13: the reference pins the writer's layout of TxcallerPOidMeter; the map stays nil/empty in generated packs while F13 is open",
         ],
     },
+    "C08": {
+        "level": "exploration",
+        "rule": "C08: generated step streams (9 registered step types, all HttpcStepX versions), single steps of all 11 types through their own Write/Read, transaction records with every combination of optional groups, service records.",
+        "groups": [G("c08", shards={"quick": 4, "thorough": 16}, timeout={"quick": 300, "thorough": 1800})],
+        "assumptions": [
+            "AbstractStep.Drop/Opt and AbstractService.Mtid/Mdepth/Mcaller (shadowed by WasService's own fields) are not carried by any writer",
+            "optional sections are compared only when their presence condition held (HttpcStepX details: version 2; SqlStep_3 sections: Opt bits 1/2/4; TxRecord groups: Mtid != 0, McallerPcode != 0, Fields non-empty); ErrorLevel 0 with Error != 0 decodes as WARNING",
+            "stack arrays have at most 32767 elements; TxRecord.Fields at most 255 entries",
+            "MessageStepX and SqlStep_3 are not registered with ReadStep and are exercised through their own Write/Read only",
+        ],
+    },
 }
 
 NOT_APPLICABLE = {}
 
 MANIFEST_TEXT = {
+    "C08": {
+        "technique": "property-based testing: generated step lists and records, round-trip with per-step consumption accounting, concatenation and re-encoding oracles",
+        "level_text": "Generated-input exploration: lists of up to 60 steps with all fields filled are encoded, carried through the three packs that embed step blobs, and decoded step by step with the number of bytes each step consumes compared with its own encoding; transaction and service records cover every combination of their optional groups.",
+        "level_note": "The not-carried field list is hand-written (evidence assumptions). Trusts reflection for field comparison.",
+    },
     "C05": {
         "technique": "property-based testing: generated packs vs independent reference encoder of the protocol layout (bodies and complete frames received over loopback TCP); frozen golden samples",
         "level_text": "Generated-input exploration: thousands of packs of the eight covered types (every optional section present/absent, both header forms) are compared byte for byte with a reference encoder written from the protocol layout, and complete frames sent by a real one-way client are captured on a loopback listener and compared with the reference frame (source, version, project code, license hash in force, exact length). 48 frozen samples pin today's layout.",
